@@ -250,6 +250,10 @@ func catchPanicNested(function func(), depth int) (err error) {
 	defer func() {
 		if caught := recover(); caught != nil {
 			if interrupt, ok := caught.(interruptPanic); ok {
+				if interrupt.runtime != nil && interrupt.runtime.scope != nil {
+					// A script is still running below this call (it came from a host function)
+					panic(interrupt)
+				}
 				// Hand the caller the value its Interrupt function panicked with
 				panic(interrupt.value)
 			}
